@@ -121,11 +121,7 @@ func runCase(idx int, raw json.RawMessage) batch.Result {
 		return batch.Result{Inconcl: "case does not decode: " + err.Error()}
 	}
 	for attempt := 0; attempt < 4; attempt++ {
-		t := time.Now()
 		res, stalled := runOnce(c)
-		if os.Getenv("VERIF_C24_TRACE") != "" {
-			fmt.Fprintf(os.Stderr, "attempt %d took %v stalled=%v\n", attempt, time.Since(t), stalled)
-		}
 		if !stalled {
 			return res
 		}
@@ -157,11 +153,7 @@ func runOnce(c ccase) (res batch.Result, stalled bool) {
 	defer func() {
 		for _, x := range cs {
 			if x.s != nil {
-				t := time.Now()
 				sess2.Teardown(x.s)
-				if os.Getenv("VERIF_C24_TRACE") != "" {
-					fmt.Fprintf(os.Stderr, "teardown took %v closed=%v state=%s\n", time.Since(t), x.s.Conn.IsClosed(), x.s.State())
-				}
 			}
 		}
 	}()
@@ -220,12 +212,7 @@ func runOnce(c ccase) (res batch.Result, stalled bool) {
 		}
 	}
 
-	trace := os.Getenv("VERIF_C24_TRACE") != ""
-	t0 := time.Now()
 	for _, ev := range c.Order {
-		if trace {
-			fmt.Fprintf(os.Stderr, "%v before %s\n", time.Since(t0), ev)
-		}
 		k := ev[1]
 		x := cs[k]
 		for _, y := range cs {
@@ -336,6 +323,9 @@ func runOnce(c ccase) (res batch.Result, stalled bool) {
 		monitors("the whole conversation")
 	}
 	res.Count("scenarios", 1)
+	if len(c.Order) > 0 && c.Order[1] == "C2" && c.Order[2] == "O2" && c.Order[3] == "O1" {
+		defer func() { res.Sample = map[string]any{"scenario": c, "findings": len(res.Findings)} }()
+	}
 	state := func(x *conn) string {
 		if x.s == nil {
 			return "none"
